@@ -1,6 +1,7 @@
 """C14 - calendar versions never run backwards as the date advances."""
 from campaigns.sweep import SweepMonotone, RejectIncoherent, FutureBump, COHERENT
 from campaigns.testcmd import TestCmd
+from campaigns.unquoted import Unquoted
 
 PROPERTY = "C14"
 LEVEL = "exploration"
@@ -16,7 +17,8 @@ ASSUMPTIONS = ["reference order = vendored packaging.version + legacy key", "clo
                "days on which WW/UU give week 53 cannot be rendered-and-read (known finding F8 of C02/C05); the sweep "
                "counts them (steered_week53) instead of reporting them here"]
 COMPONENTS = {"bumpver cli test/update/show": "real", "clock": "simulated (--date / version.TODAY)"}
-CAMPAIGNS = [SweepMonotone(), RejectIncoherent(), FutureBump(), TestCmd("C14", quick=6000, thorough=200000, sv_rate=0.0)]
+CAMPAIGNS = [SweepMonotone(), RejectIncoherent(), FutureBump(), TestCmd("C14", quick=6000, thorough=200000, sv_rate=0.0),
+             Unquoted("C14", quick=300, thorough=6000)]
 
 
 def sanity_gate(tier, total):
